@@ -98,7 +98,7 @@ def main():
         "engines": [
             {"name": "tlc", "path": "/verif/spec", "serves_properties": [c["property_id"] for c in checks],
              "kind_free_text": "explicit TLA+ specification checked with TLC; trace validation / replay binds it to the C++ headers"},
-            {"name": "apalache", "path": "/verif/spec/Split_apa.tla", "serves_properties": ["C16"],
+            {"name": "apalache", "path": "/verif/spec/Split_apa.tla, /verif/spec/Bins_apa.tla", "serves_properties": ["C16", "C11"],
              "kind_free_text": "SMT-based check over unbounded integers"},
             {"name": "harness", "path": "/verif/harness", "serves_properties": [c["property_id"] for c in checks],
              "kind_free_text": "C++ drivers, scripted engines, MPI shim, syscall interposer"},
